@@ -1106,6 +1106,56 @@ def check_am_decoder(ctx):
                                   {"B": B, "S": S, "dynamic": dyn, "logits": logits.tolist(), "want": want.tolist()})
 
 
+def _first_k_feasible(td, env, k):
+    """deterministic start actions: the first k feasible scheduling actions of every instance, laid out start-major
+    (row s·B+b) like the library's own start selection"""
+    mask = td["action_mask"].clone()
+    mask[:, 0] = False
+    idx = torch.stack([mask[b].nonzero().flatten()[:k] for b in range(mask.size(0))], 0)
+    return idx.T.reshape(-1)
+
+
+def check_zoo_multistart(ctx):
+    """policies with their OWN pre-decoder hook / replication site: the encode-once L2D policy on FJSP and JSSP decoded
+    with multi-start, B >= 2 different instances, S >= 2, deterministic start function.  Row s·B+b must be the s-th rollout
+    of instance b decoded alone (actions, reward, log-likelihood): its state, mask AND encoder embeddings are instance b's."""
+    from rl4co.envs import FJSPEnv, JSSPEnv
+    from rl4co.models.zoo.l2d.policy import L2DPolicy
+
+    confs = [("fjsp", FJSPEnv, dict(num_jobs=3, num_machines=3, min_ops_per_job=2, max_ops_per_job=3)),
+             ("jssp", JSSPEnv, dict(num_jobs=3, num_machines=3))]
+    for name, cls, gp in confs:
+        for B, S in [(3, 2), (2, 3)][: ctx.budget(2, 2)]:
+            seed = ctx.rng.randrange(1 << 30)
+            torch.manual_seed(seed)
+            env = cls(generator_params=gp)
+            pol = L2DPolicy(env_name=name, embed_dim=16, num_encoder_layers=1, het_emb=True).eval()
+            td0 = env.reset(batch_size=[B])
+            for dt in ("multistart_greedy",):
+                kw = dict(phase="test", decode_type=dt, num_starts=S, select_start_nodes_fn=_first_k_feasible, return_actions=True)
+                with torch.no_grad():
+                    out = pol(td0.clone(), env, **kw)
+                    if out["actions"].shape[0] != B * S:
+                        viol(ctx, "zoo-multistart:rows", "multi-start output does not have B*S rows", {"policy": "l2d", "env": name})
+                        continue
+                    for b in range(B):
+                        solo = pol(td0[b: b + 1].clone(), env, **kw)
+                        for s_ in range(S):
+                            r = s_ * B + b
+                            T = min(out["actions"].shape[1], solo["actions"].shape[1])
+                            same = bool((out["actions"][r, :T] == solo["actions"][s_, :T]).all())
+                            dll = abs(float(out["log_likelihood"][r] - solo["log_likelihood"][s_]))
+                            drew = abs(float(out["reward"][r] - solo["reward"][s_]))
+                            ctx.case(("zoo-ms", name, B, S, seed, b, s_), nontrivial=True)
+                            if not same or dll > 1e-4 or drew > 1e-4:
+                                viol(ctx, f"zoo-multistart:l2d:{name}:row-not-own-instance",
+                                     "L2D multi-start: row s*B+b is not the s-th rollout of instance b decoded alone (its embeddings, "
+                                     "state or mask belong to another instance)",
+                                     {"env": name, "B": B, "S": S, "torch_seed": seed, "instance": b, "start": s_, "row": r,
+                                      "same_actions": same, "loglik_diff": dll, "reward_diff": drew})
+            ctx.count(f"zoo_multistart.l2d.{name}")
+
+
 def check_policy_e2e(ctx):
     """policy(td, env, decode_type='multistart_greedy', num_starts=k, select_best=…) end to end on real
     environments with a small real attention model"""
@@ -1188,6 +1238,7 @@ def run_c12(ctx):
     check_eval(ctx)
     check_am_decoder(ctx)
     check_policy_e2e(ctx)
+    check_zoo_multistart(ctx)
 
 
 # --------------------------------------------------------------------------------------------------
@@ -1676,6 +1727,85 @@ def check_epoch_end(ctx):
     ctx.sample({"what": "REINFORCE.on_train_epoch_end history", "plans": plans[:2]})
 
 
+def check_custom_rollouts(ctx):
+    """every rollout function of the code base with a REAL batch-norm policy left in TRAIN mode (as inside Trainer.fit):
+    MDAM's own `rollout` (installed into the rollout baseline) and the default `RolloutBaseline.rollout`.
+    The value attached to item i must be the EVAL-mode reward of the baseline policy on instance i alone — identical for
+    every rollout batch size — both for a direct rollout and through the real epoch-end hook."""
+    import copy
+
+    from rl4co.envs import TSPEnv
+    from rl4co.models import MDAM
+    from rl4co.models.rl import REINFORCE
+    from rl4co.models.zoo.am import AttentionModelPolicy
+
+    env = TSPEnv(generator_params=dict(num_loc=6))
+
+    def truth_of(policy, locs, mdam):
+        ref = copy.deepcopy(policy).eval()
+        out = []
+        with torch.inference_mode():
+            for i in range(locs.shape[0]):
+                r = ref(env.reset(TensorDict({"locs": locs[i: i + 1].clone()}, batch_size=[1])), env, decode_type="greedy")["reward"]
+                out.append(r.max(1).values if mdam else r)
+        return torch.cat(out)
+
+    for who in ("mdam", "default"):
+        seed = ctx.rng.randrange(1 << 30)
+        torch.manual_seed(seed)
+        common = dict(baseline="rollout", batch_size=4, val_batch_size=3, test_batch_size=4, train_data_size=7, val_data_size=8,
+                      test_data_size=4)
+        if who == "mdam":
+            model = MDAM(env, policy_kwargs=dict(embed_dim=16, num_heads=2, num_encoder_layers=1, num_paths=2), **common)
+        else:
+            pol = AttentionModelPolicy(env_name="tsp", embed_dim=16, num_encoder_layers=1, num_heads=2, feedforward_hidden=16,
+                                       normalization="batch")
+            model = REINFORCE(env, pol, **common)
+        model.train()   # a LightningModule is in training mode during fit
+        model.setup()
+        model._trainer = types.SimpleNamespace(max_epochs=10, current_epoch=0, loggers=[], strategy=None)
+        warm, roll = model.baseline, model.baseline.baseline
+        wit = {"model": who, "torch_seed": seed}
+        # (i) direct rollouts of the baseline policy left in TRAIN mode, several evaluation batch sizes
+        base = env.dataset(9, phase="train")
+        locs = torch.stack([base[i]["locs"] for i in range(len(base))]).clone()
+        truth = truth_of(roll.policy, locs, who == "mdam")
+        vals = {}
+        for bs in (2, 9, 4):
+            roll.policy.train()
+            vals[bs] = roll.rollout(roll.policy, env, bs, "cpu", dataset=base).detach()
+        ctx.count(f"custom_rollout.{who}.direct")
+        ctx.case(("custom-rollout", who, seed), nontrivial=True)
+        for bs, v in vals.items():
+            if list(v.shape) != [len(base)] or float((v - truth).abs().max()) > 1e-4:
+                viol(ctx, f"rollout:{who}:not-eval-mode-values", "a rollout-baseline value is not the eval-mode reward of the baseline "
+                     "policy on its own instance (policy rolled out in training mode: batch statistics of its batch-mates)",
+                     dict(wit, eval_bs=bs, max_abs_diff=float((v - truth).abs().max()) if list(v.shape) == [len(base)] else None))
+        if any(float((vals[2] - vals[b]).abs().max()) > 1e-4 for b in (9, 4)):
+            viol(ctx, f"rollout:{who}:depends-on-batch-size", "the rollout-baseline values depend on the evaluation batch size",
+                 dict(wit, diffs={b: float((vals[2] - vals[b]).abs().max()) for b in (9, 4)}))
+        # (ii) through the real epoch-end hook (warm-up ends, next training set is wrapped) with the module in training mode
+        model.train()
+        try:
+            model.on_train_epoch_end()
+        except Exception as e:  # noqa: BLE001
+            viol(ctx, "epoch-end:raised", "on_train_epoch_end raised", dict(wit, error=repr(e)[:300]))
+            continue
+        ds = model.train_dataset
+        items = [ds[i] for i in range(len(ds))]
+        if warm.alpha > 0 and all("extra" in it for it in items):
+            locs = torch.stack([it["locs"] for it in items]).clone()
+            got = torch.stack([it["extra"] for it in items])
+            truth = truth_of(roll.policy, locs, who == "mdam")
+            if float((got - truth).abs().max()) > 1e-4:
+                viol(ctx, f"epoch-end:{who}:extra-not-eval-mode-baseline", "after the epoch boundary the attached values are not the "
+                     "eval-mode rewards of the current baseline policy on the items' own instances",
+                     dict(wit, max_abs_diff=float((got - truth).abs().max())))
+        else:
+            viol(ctx, "epoch-end:not-wrapped-by-current-alpha", "alpha > 0 expected after the warm-up epoch and a wrapped training set", wit)
+        ctx.count(f"custom_rollout.{who}.epoch_end")
+
+
 def check_eval_call(ctx):
     """tasks/eval.py:EvalBase.__call__ — concatenation of per-batch rewards and zero-padded actions over a loader
     with a final partial batch"""
@@ -1728,6 +1858,7 @@ def run_c17(ctx):
     check_index_batches(ctx)
     check_baseline_epochs(ctx)
     check_epoch_end(ctx)
+    check_custom_rollouts(ctx)
     check_eval_call(ctx)
 
 
@@ -1740,7 +1871,7 @@ NOTE_S = ("feasibility of a forced start is a statement about the environment's 
           "(`starts_prefix`: instance b is forced to lo, lo+1, …, lo+k-1), the mask part is the env families' reset lemma; the "
           "harness evaluates the real reset masks of the bundled generators")
 NOTE_PD = ("translator tie (C17): `Params.dsExtraWriteUnconditional`, `dsExtraIndexShift`, `dsFastTdDirect`, `dsFastGenDirect`, "
-           "`dsCollateInOrder`, `dsInitRowsInOrder`, `blRolloutPlainConcat`, `blRolloutLoaderPlain`, `loaderShufflePassthrough`, `rfCallbackBeforeSuper`, `evalCatInOrder`, `evalPadLeft` "
+           "`dsCollateInOrder`, `dsInitRowsInOrder`, `blRolloutPlainConcat`, `blRolloutLoaderPlain`, `loaderShufflePassthrough`, `rfCallbackBeforeSuper`, `blRolloutEvalMode`, `mdamRolloutEvalMode`, `mdamRolloutPlainConcat`, `evalCatInOrder`, `evalPadLeft` "
            "are regenerated from the sources and unfolded by the C17 proofs (a guarded write, a `__getitems__` fast path or a "
            "buffer-offset rollout breaks `readExtra_eq` / `fetch_eq` / `rollout_aligned` at build)")
 NOTE_D = ("DataLoader's sampler (sequential / permutation) and batch sampler are modelled as `chunks` of an index order "
@@ -1801,6 +1932,9 @@ C12_THEOREMS = [
     T("Rl4co.Ops.unbatchifyTD_batchifyTD", "proved", "TensorDicts: expansion followed by its inverse is the identity at every key path"),
     T("Rl4co.Ops.am_static_roundtrip", "proved", "AM decoder static path with the extracted unbatchify / '(s b)' flatten: row r comes back at row r"),
     T("Rl4co.Ops.am_dynamic_pairing", "proved", "AM decoder dynamic path: PrecomputedCache.batchify pairs state row r with the cache of instance r mod B"),
+    T("Rl4co.Ops.zoo_replication_pairing", "proved", "L2D embeddings, NAR heat-map index, MatNet/FFSP state, EAS state: replicated start-major (extracted batchify) — row r meets instance r mod B"),
+    T("Rl4co.Ops.replicateSite_pairing", "proved", "a replication site that uses batchify obeys the row law"),
+    T("Rl4co.Ops.replicateSite_instance_major_mismatch", "proved", "the instance-major form pairs row 1 (instance 1) with instance 0's copy"),
     T("Rl4co.Ops.gatherIdx_step_survives", "proved", "gather_by_index [B,N,…]/[B,S]: result [B,S,…] with [b][s] = src[b][idx b s] iff S ≠ 1 or squeeze=False"),
     T("Rl4co.Ops.gatherIdx_step_lost", "proved", "… a single step with squeeze=True drops the step dimension"),
     T("Rl4co.Ops.gatherIdx_default_one_step", "proved", "the default call drops a one-step dimension; squeeze=False keeps it for every S (root of fix f2d5960)"),
@@ -1870,6 +2004,9 @@ C17_THEOREMS = [
     T("Rl4co.Ops.eval_call_aligned", "proved", "EvalBase.__call__: rewards[i] / actions[i] are instance i's, actions right-padded with zeros to the common length, any batching"),
     T("Rl4co.Ops.eval_call_roundtrip", "proved", "… over a sequential loader: one reward per instance of the data set in order"),
     T("Rl4co.Ops.padRow_eq", "proved", "pad(action, (0, L - len)) appends zeros only"),
+    T("Rl4co.Ops.rollout_eval_aligned", "proved", "RolloutBaseline.rollout and MDAM's own rollout put the policy in eval mode (extracted): values = map g ds for a policy whose INFERENCE behaviour is row-wise, whatever it does in train mode"),
+    T("Rl4co.Ops.rollout_eval_batch_size_independent", "proved", "… hence identical for any two evaluation batch sizes"),
+    T("Rl4co.Ops.rolloutWith_train_mode_counterexample", "proved", "without .eval() a batch-centred policy attaches batch-size dependent values"),
     T("Rl4co.Ops.blWrap_eq", "proved", "WarmupBaseline.wrap_dataset with a row-wise baseline policy attaches g(policy, x), or nothing while alpha = 0"),
     T("Rl4co.Ops.epoch_end_wrap_uses_updated_baseline", "proved", "REINFORCE.on_train_epoch_end (extracted order: callback, then reset): the new training set carries the rewards of the baseline policy AFTER the callback and is wrapped iff the alpha AFTER the callback is > 0"),
     T("Rl4co.Ops.epoch_end_swapped_counterexample", "proved", "NOT the same claim for the swapped order (reset before callback)"),
@@ -1879,7 +2016,7 @@ C17_THEOREMS = [
     T("Rl4co.Ops.readMany_current", "proved", "the same for a whole pass over any index list (any order, repetitions) from any store"),
 ]
 
-NOTE_P = ("translator tie: `Params.opsLoopsReversed`, `opsNumStartsDepotEnvs`, `opsNoDepotStartEnvs`, `opsOpClampMin`, `opsOpArgsortStable`, `opsOpCountPerInstance`, `opsNoDepotInterleave`, `opsDepotInterleave`, `opsDepotArangeStart`, `opsDepotModAdd`, `opsDepotPlus`, `opsOpReplicaMajor`, `opsSampleNReplicaMajor`, `amFlattenReplicaMajor`, `amStaticUnbatchify`, `amCacheUsesBatchify`, `decMultistartEnvSelect`, `decBeamEnvSelect`, `opsGatherSqueezeDefault/DimDefault/SqueezeSize`, "
+NOTE_P = ("translator tie: `Params.opsLoopsReversed`, `opsNumStartsDepotEnvs`, `opsNoDepotStartEnvs`, `opsOpClampMin`, `opsOpArgsortStable`, `opsOpCountPerInstance`, `opsNoDepotInterleave`, `opsDepotInterleave`, `opsDepotArangeStart`, `opsDepotModAdd`, `opsDepotPlus`, `opsOpReplicaMajor`, `opsSampleNReplicaMajor`, `amFlattenReplicaMajor`, `amStaticUnbatchify`, `amCacheUsesBatchify`, `decMultistartEnvSelect`, `decBeamEnvSelect`, `opsGatherSqueezeDefault/DimDefault/SqueezeSize`, `l2dHiddenUsesBatchify`, `narIndexUsesBatchify`, `matnetTdUsesBatchify`, `easTdUsesBatchify`, "
           "`opsSampleNReplaceCmp` are regenerated from utils/ops.py (harness/probes/ops.py) and unfolded by the C12 proofs")
 
 register(Unit("C12", "ops", run_c12, drivers=["drv_ops"],
